@@ -75,8 +75,12 @@ impl Snapshot {
         self.rowsets.entry(table_id).or_default().insert(rowset_id);
     }
 
+    /// Deleting a RowSet that is already gone (e.g. removed by a concurrent `DROP TABLE` or
+    /// compaction that committed first) is a no-op.
     pub fn delete_rowset(&mut self, table_id: u32, rowset_id: u32) {
-        let table = self.rowsets.get_mut(&table_id).unwrap();
+        let Some(table) = self.rowsets.get_mut(&table_id) else {
+            return;
+        };
         table.remove(&rowset_id);
         if table.is_empty() {
             self.rowsets.remove(&table_id);
@@ -92,12 +96,17 @@ impl Snapshot {
             .insert(dv_id);
     }
 
+    /// Deleting a DV that is already gone (e.g. removed by a concurrent `DROP TABLE` or
+    /// compaction that committed first) is a no-op.
     pub fn delete_dv(&mut self, table_id: u32, rowset_id: u32, dv_id: u64) {
-        let table = self.dvs.get_mut(&table_id).unwrap();
-        let dvs = table.get_mut(&rowset_id).unwrap();
-        dvs.remove(&dv_id);
-        if dvs.is_empty() {
-            table.remove(&rowset_id);
+        let Some(table) = self.dvs.get_mut(&table_id) else {
+            return;
+        };
+        if let Some(dvs) = table.get_mut(&rowset_id) {
+            dvs.remove(&dv_id);
+            if dvs.is_empty() {
+                table.remove(&rowset_id);
+            }
         }
         if table.is_empty() {
             self.dvs.remove(&table_id);
